@@ -8,7 +8,7 @@
 (***************************************************************************)
 EXTENDS Naturals, Sequences, FiniteSets, TLC
 
-CONSTANTS D, NP, Names, MaxSteps, MaxDamage, MaxStamp, ScriptId
+CONSTANTS D, NP, Names, MaxSteps, MaxDamage, MaxStamp, ScriptId, GoalId
 Contents == {<<"v1">>, <<"v2">>, <<"s1">>, <<"v3", "s2">>}
 
 BS == 4
@@ -17,8 +17,8 @@ NameOrder == <<"A", "B", "C">>
 
 INSTANCE Array
 
-VARIABLES fs, C, par, ghost, steps, ndmg, tick, pviol, last, clean, dmg
-vars == <<fs, C, par, ghost, steps, ndmg, tick, pviol, last, clean, dmg>>
+VARIABLES fs, C, par, ghost, steps, ndmg, tick, pviol, last, clean, dmg, cov
+vars == <<fs, C, par, ghost, steps, ndmg, tick, pviol, last, clean, dmg, cov>>
 
 Size(b) == IF Len(b) = 0 THEN 0 ELSE (Len(b) - 1) * BS + LenOf(b[Len(b)])
 EmptyC == [cf |-> [d \in D |-> <<>>], del |-> [d \in D |-> <<>>], info |-> <<>>]
@@ -38,6 +38,7 @@ Init ==
     /\ last = "init"
     /\ clean = FALSE
     /\ dmg = FALSE
+    /\ cov = {}
 
 AllFiles(c) == UNION {{<<d, n>> : n \in DOMAIN c.cf[d]} : d \in D}
 WithFile(f, d, n, rec) == [f EXCEPT ![d] = [m \in DOMAIN f[d] \cup {n} |-> IF m = n THEN rec ELSE f[d][m]]]
@@ -45,12 +46,22 @@ WithoutFile(f, d, n) == [f EXCEPT ![d] = [m \in DOMAIN f[d] \ {n} |-> f[d][m]]]
 
 (* ScriptId = "none": free exploration.  Otherwise only the named action sequence is followed (all argument
    choices explored): used to show in seconds that the model exhibits the announced counterexamples *)
-Scripts == [F1 |-> <<"Write", "Write", "Sync", "Delete", "Write", "SyncMid", "Restore", "LoseFile", "Fix">>,
-            F1s |-> <<"Write", "Sync", "Write", "SyncMid", "LoseFile", "Fix">>,
+Scripts == [F1s |-> <<"Write", "Sync", "Write", "SyncMid", "LoseFile", "Fix">>,
             F2 |-> <<"Write", "Sync", "Delete", "Write", "SyncKillAfterPresave", "LoseFile", "Fix">>,
+            \* templates of histories for the coverage goals of the repair logic (witness generation)
+            H1 |-> <<"Write", "Write", "Sync", "Write", "SyncKillAfterPresave", "LoseFile", "LoseFile", "Fix">>,
+            H2 |-> <<"Write", "Write", "Sync", "Write", "SyncKillAfterParity", "LoseFile", "LoseFile", "Fix">>,
+            H3 |-> <<"Write", "Write", "Sync", "Delete", "Write", "SyncKillAfterPresave", "LoseFile", "Fix">>,
+            H4 |-> <<"Write", "Write", "Sync", "Write", "SyncMid", "LoseFile", "LoseFile", "Fix">>,
+            H5 |-> <<"Write", "Write", "Sync", "CorruptBlock", "CorruptParity", "Fix">>,
+            H6 |-> <<"Write", "Write", "Sync", "LoseParity", "LoseFile", "Fix">>,
+            H7 |-> <<"Write", "Write", "Sync", "Write", "SyncKillAfterPresave", "CorruptBlock", "LoseFile", "Fix">>,
+            H8 |-> <<"Write", "Write", "Sync", "Delete", "SyncKillAfterPresave", "LoseFile", "Fix">>,
+            H9 |-> <<"Write", "Write", "Sync", "Write", "SyncKillAfterPresave", "Sync", "CorruptBlock", "Fix">>,
             none |-> <<>>]
 Script == Scripts[ScriptId]
 Step(name) == /\ steps < MaxSteps /\ steps' = steps + 1 /\ last' = name
+              /\ (name = "Fix" \/ cov' = {})
               /\ (ScriptId = "none" \/ (steps + 1 <= Len(Script) /\ Script[steps + 1] = name))
 
 (* ---- user edits ---- *)
@@ -164,6 +175,7 @@ Fix ==
            r == FixResult(C, fs, par, Levels, sel)
        IN /\ fs' = r.fs
           /\ par' = r.par
+          /\ cov' = UNION {r.R[p].path : p \in DOMAIN r.R}
           /\ pviol' = C05_Fix(C, ghost, fs, r.fs, r.out.unrec) \o
                       (IF clean /\ WithinBounds(C, fs, par) THEN C01_Fix(C, r.fs, r.out) ELSE <<>>)
     /\ UNCHANGED <<C, ghost, ndmg, tick, clean, dmg>>
@@ -183,5 +195,7 @@ NoPropertyViolation == pviol = <<>>
 NoOtherViolation == pviol = <<>> \/ (pviol[1][1] = "C05" /\ pviol[1][2] \in {"F1-chg-pasthash-is-new-hash", "F2-chg-pasthash-other-length"})
 NoF1 == ~(pviol # <<>> /\ pviol[1][2] = "F1-chg-pasthash-is-new-hash")
 NoF2 == ~(pviol # <<>> /\ pviol[1][2] = "F2-chg-pasthash-other-length")
-View == <<fs, C, par, ghost, ndmg, tick, pviol, clean, dmg, steps>>
+View == <<fs, C, par, ghost, ndmg, tick, pviol, clean, dmg, steps, cov>>
+(* coverage goals: TLC searches a shortest history whose fix goes through the branch Goal (GoalId constant) *)
+NoGoal == GoalId \notin cov
 =============================================================================
